@@ -119,7 +119,76 @@ def run(ctx):
     from . import c11
     r4 = Rule("R12.4", "what a type copies from a type of another module does not depend on which module was processed first (module-wide pass barriers)", floor=1)
     c11.module_barriers_rule(prog, tab.get("module_barriers", []), r4)
-    return [ra, rb, rc, rd, r12_2(prog, scope), r12_3(prog), r4, r12_5(prog, tab)]
+    return [ra, rb, rc, rd, r12_2(prog, scope), r12_3(prog), r4, r12_5(prog, tab), r12_6(prog, tab)]
+
+
+def r12_6(prog, tab):
+    """State the scanner passes to the parser behind the token stream starts afresh with every input file.  A file-scope
+    variable of libasn1parser that the scanner function writes and the parser function reads (or the other way round),
+    other than the flex/bison token interface, keeps its value from one asn1p_parse() to the next; what the previous
+    file left in it then shapes the first construct of the next one, and the generated files depend on the order of
+    the files on the command line.  Every call of the parser must be preceded, in its caller (directly or in a callee
+    called on the way), by an assignment to each such variable."""
+    r = Rule("R12.6", "a variable shared between the scanner and the parser behind the token stream is reset before every parse", floor=2)
+    lex = prog.require(tab["parse_entry"]["scanner"])
+    par = prog.require(tab["parse_entry"]["parser"])
+    skip = tab["scanner_interface"]
+
+    def touched(f):
+        wr, rd = set(), set()
+        for b, i, e in f.events("assign"):
+            lt = strip_casts(e.get("lhs_tree"))
+            if is_var(lt) and lt[2] not in ("local", "param"):
+                wr.add(lt[1])
+        for b, line, tree in f.all_trees():
+            for n in walk(tree):
+                if n[0] == "var" and n[2] not in ("local", "param"):
+                    rd.add(n[1])
+        return wr, rd
+    lw, lr = touched(lex)
+    pw, pr = touched(par)
+    shared = ((lw & pr) | (pw & lr))
+    shared = {v for v in shared if not v.startswith("yy") and v not in skip}
+    gl = {g["id"]: g for g in prog.globals if not g.get("const") and not g.get("in_function")}
+    shared = {v for v in shared if v in gl}
+    cg = prog.callgraph()
+
+    def assigns(f, v, seen=None):
+        """function f (or a callee) assigns v"""
+        seen = seen if seen is not None else set()
+        if f.key in seen:
+            return False
+        seen.add(f.key)
+        for b, i, e in f.events("assign"):
+            if is_var(e.get("lhs_tree"), v):
+                return True
+        for b, i, e, tg in cg.sites[f.key]:
+            for t in tg:
+                if t != par.key and t != lex.key and t in prog.funcs and assigns(prog.funcs[t], v, seen):
+                    return True
+        return False
+    callers = [(f, b, i, e) for f in prog.funcs.values() for b, i, e in f.calls() if e.get("callee") == par.name and f.key not in (par.key, lex.key)]
+    if not callers:
+        raise AnalysisBroken("no caller of %s found" % par.name)
+    from .c15 import must_pass
+    for v in sorted(shared):
+        for f, b, i, e in callers:
+            key = "%s before %s()" % (v, par.name)
+
+            def settles(y, v=v, f=f):
+                if y["k"] == "assign" and is_var(y.get("lhs_tree"), v):
+                    return True
+                if y["k"] == "call" and y.get("callee") and y["callee"] not in (par.name, lex.name):
+                    t = prog.func(y["callee"])
+                    return t is not None and assigns(t, v)
+                return False
+            ok = any(settles(y) for y in b.ev[:i]) or (b.id != f.entry and must_pass(f, f.entry, b.id, i, settles))
+            if ok:
+                r.ok(f, key, "assigned on every path to the parser call", e["line"])
+            else:
+                r.bad(f, key, "`%s` is written by %s and read by %s (or the reverse), and %s calls the parser without assigning it: it still holds "
+                              "what the previous input file left there" % (v, lex.name, par.name, f.name), e["line"])
+    return r
 
 
 def r12_5(prog, tab):
